@@ -341,6 +341,12 @@ class MessageCompiler(ProtoContentBase):
             else:
                 self.output_file.messages.append(self)
         self.deprecated = self.proto_obj.options.deprecated
+        # Fields named like a builtin shadow it inside the class body, so every
+        # annotation of the message has to spell that type ``builtins.<type>``.
+        # This must be known before the fields are read (they record the import).
+        self.builtins_types = {
+            pythonize_field_name(f.name) for f in getattr(self.proto_obj, "field", [])
+        } & set(dir(builtins))
         super().__post_init__()
 
     @property
@@ -439,8 +445,6 @@ class FieldCompiler(MessageCompiler):
         betterproto_field_type = (
             f"betterproto.{self.field_type}_field({self.proto_obj.number}{field_args})"
         )
-        if self.py_name in dir(builtins):
-            self.parent.builtins_types.add(self.py_name)
         return f"{name}{annotations} = {betterproto_field_type}"
 
     @property
@@ -631,8 +635,18 @@ class MapEntryCompiler(FieldCompiler):
         return "map"
 
     @property
+    def use_builtins(self) -> bool:
+        shadowed = self.parent.builtins_types
+        return self.py_k_type in shadowed or self.py_v_type in shadowed
+
+    @property
     def annotation(self) -> str:
-        return self.typing_compiler.dict(self.py_k_type, self.py_v_type)
+        shadowed = self.parent.builtins_types
+        k_type, v_type = (
+            f"builtins.{py_type}" if py_type in shadowed else py_type
+            for py_type in (self.py_k_type, self.py_v_type)
+        )
+        return self.typing_compiler.dict(k_type, v_type)
 
     @property
     def repeated(self) -> bool:
